@@ -6,7 +6,8 @@
      source <hex path>    the root sources in the order main() processes them
      emitted <hex path>   every file whose content was scanned, in order
      included <hex path>  the include set, in order of inclusion
-     starved <0|1>        1 if the nesting fuel of the model ran out (never expected)
+     starved <0|1>        1 if the nesting fuel of the model ran out (proved impossible: C20_fuel_sufficient)
+     directives <n>       directives the expansion stood on; unresolved <n>: those kept verbatim
      bytes <n>            size of the generated header *)
 open Amalgam_model
 let rec pos_of_int n = if n = 1 then XH else if n land 1 = 1 then XI (pos_of_int (n lsr 1)) else XO (pos_of_int (n lsr 1))
@@ -38,6 +39,8 @@ let () =
   List.iter (fun p -> Printf.printf "emitted %s\n" (hex_of_path p)) (List.rev (emitted g));
   List.iter (fun p -> Printf.printf "included %s\n" (hex_of_path p)) (List.rev (included g));
   Printf.printf "starved %d\n" (if starved g then 1 else 0);
+  Printf.printf "directives %d\n" (List.length (met g));
+  Printf.printf "unresolved %d\n" (List.length (List.filter (fun (_, r) -> r = None) (met g)));
   let b = Buffer.create 200000 in
   List.iter (fun c -> Buffer.add_char b (Char.chr (int_of_n c land 255))) out;
   let oc = open_out_bin Sys.argv.(2) in
